@@ -73,6 +73,9 @@ def _case(draw):
             "u_add": draw(st.sampled_from([None, None, "1/cm", "THz", "eV"])),
             "value_tail": draw(st.booleans()) if fam == "cf" else False,
             "measure_leaves": draw(st.booleans()),
+            # the functions are handed to a correlation-function matrix (the bath of a two-site system), possibly while
+            # other energy units are current
+            "u_matrix": draw(st.sampled_from(["none", None, "1/cm", "eV", "THz"])),
             "t_mismatch": draw(st.sampled_from([None, None, None, 0, 1])) if fam == "cf" and n >= 2 else None}
 
 
@@ -203,6 +206,40 @@ def check_case(case, ctx):
         got = total.get_reorganization_energy()
     ctx.close("sum-reorganisation-energy/read-in-units", got, float(orc.from_internal(wlam, case["u_read"])), rtol=1e-7,
               where=where, unit=case["u_read"])
+
+    # ---- the matrix of correlation functions of a system carries the same parameters and values -----------------------
+    if fam == "cf" and case.get("u_matrix", "none") != "none":
+        from quantarhei.qm.corfunctions import CorrelationFunctionMatrix
+        um = case["u_matrix"]
+
+        def into_matrix():
+            def reg():
+                cm = CorrelationFunctionMatrix(ta, 2)
+                cm.set_correlation_function(total, [(0, 0)])
+                cm.set_correlation_function(singles[0], [(1, 1)])
+                return cm
+            if um:
+                with qr.energy_units(um):
+                    cm = reg()
+            else:
+                cm = reg()
+            with qr.energy_units("int"):
+                lams = [float(cm.get_reorganization_energy(0, 0)), float(cm.get_reorganization_energy(1, 1))]
+            with qr.energy_units(case["u_read"]):
+                lam_u = float(cm.get_reorganization_energy(0, 0))
+            return lams, lam_u, numpy.array(cm.get_coft(0, 0)), numpy.array(cm.get_coft(1, 1)), float(cm.get_temperature())
+        ok, r = guarded(ctx, "matrix", into_matrix, where)
+        if ok:
+            wh = where + ("/registered-in-" + um if um else "")
+            ctx.label("matrix:" + (um or "no-context"))
+            ctx.close("matrix/reorganisation-energy", r[0][0], wlam, rtol=1e-7, where=wh + "/sum")
+            ctx.close("matrix/reorganisation-energy", r[0][1], lam_int[0], rtol=1e-7, where=wh + "/single")
+            ctx.close("matrix/reorganisation-energy/read-in-units", r[1], float(orc.from_internal(wlam, case["u_read"])),
+                      rtol=1e-7, where=wh, unit=case["u_read"])
+            ctx.close("matrix/values", r[2], want, rtol=1e-9, scale=sc, where=wh + "/sum")
+            ctx.close("matrix/values", r[3], ref_data[0], rtol=1e-9, scale=max(1e-30, float(numpy.max(numpy.abs(ref_data[0])))),
+                      where=wh + "/single")
+            ctx.close("matrix/temperature", r[4], float(T), rtol=1e-12, where=wh)
 
     # ---- a sum of spectral densities converted to a correlation function carries the summed parameters --------------
     if fam == "sd" and not case["self_add"] and all(c["ftype"] == "OverdampedBrownian" for c in comps):
